@@ -169,15 +169,15 @@ prop('C05', opts={'abstract_fp': True},
 NAMED = ['NamedInt8', 'NamedInt16', 'NamedInt32', 'NamedInt64', 'NamedInt', 'NamedUint8', 'NamedUint16', 'NamedUint32',
          'NamedUint64', 'NamedUint', 'NamedUintptr', 'NamedFloat32', 'NamedFloat64']
 prop('C13', opts={'lazy_make': True},
-     harnesses=[{'name': 'C13_Alloc', 'types': {'quick': QUICK_T + ['NamedInt8', 'NamedUint16', 'NamedFloat32', 'NamedInt'], 'thorough': ALL + NAMED},
+     harnesses=[{'name': 'C13_Alloc', 'types': {'quick': QUICK_T + ['uintptr', 'NamedInt8', 'NamedUint16', 'NamedFloat32', 'NamedInt'], 'thorough': ALL + NAMED},
                  'params': {'quick': {'MaxAllocC': 8, 'MaxAllocK': 4096}, 'thorough': {'MaxAllocC': 64, 'MaxAllocK': 65536}}, 'covers': ['nonempty']},
-                {'name': 'C13_Small', 'types': {'quick': ['int32', 'float64', 'NamedInt16'], 'thorough': ALL + NAMED}, 'covers': ['small'],
+                {'name': 'C13_Small', 'types': {'quick': ['int32', 'float64', 'uintptr', 'NamedInt16', 'NamedUintptr'], 'thorough': ALL + NAMED}, 'covers': ['small'],
                  'opts': {'lazy_make': False, 'fallbacks': 24}},
                 {'name': 'C13_History', 'types': {'quick': ['int8', 'float32'], 'thorough': ALL + NAMED[:4]}, 'covers': ['grown-empty', 'pool-released', 'filled-twin'],
                  'opts': {'lazy_make': False, 'fallbacks': 24, 'pool_mode': 'all'}},
                 {'name': 'C13_Length', 'types': {'quick': ['int8', 'float64'], 'thorough': QUICK_T},
                  'params': {'quick': {'MaxLemmaC': 3, 'MaxLemmaK': 8}, 'thorough': {'MaxLemmaC': 4, 'MaxLemmaK': 16}}}],
-     bounds={'quick': 'channels 1..8 (case split), 0 <= L <= K <= 4096 symbolic, witness positions symbolic over the whole capacity; 5 built-in and 4 named element types; per-channel Length() (floating-point ceil) for C<=3, K<=8',
+     bounds={'quick': 'channels 1..8 (case split), 0 <= L <= K <= 4096 symbolic, witness positions symbolic over the whole capacity; 6 built-in (incl. uintptr) and 5 named element types; per-channel Length() (floating-point ceil) for C<=3, K<=8',
              'thorough': 'channels 1..64, 0 <= L <= K <= 65536 symbolic; all 13 built-in and 13 named element types; Length() for C<=4, K<=16'},
      outside=['Length() beyond the small bound (its floating-point division is checked exactly only there)', 'C = 0 (C20)', 'K beyond the bound'])
 
